@@ -599,6 +599,14 @@ func TestC19Write(t *testing.T) {
 				vals = append(vals, genJSON(rt, 5))
 			}
 		}
+		// failAt >= 0: just before write failAt the same goroutine makes a wsjson.Write on ANOTHER connection that
+		// fails in the connection (it is closed already, or its context is over) - after the value was encoded.
+		// Nothing of that document may show up in what this connection sends.
+		failAt, failHow := -1, ""
+		if rapid.IntRange(0, 2).Draw(rt, "failedWriteElsewhere") == 0 {
+			failAt = rapid.IntRange(0, n-1).Draw(rt, "failedWriteBefore")
+			failHow = rapid.SampledFrom([]string{"closed", "cancelled"}).Draw(rt, "failedWriteHow")
+		}
 		var fail string
 		rapid.SyncTest(rt, func(rt *rapid.T) {
 			e := newEnv(rt)
@@ -607,6 +615,17 @@ func TestC19Write(t *testing.T) {
 			if err != nil {
 				fail = err.Error()
 				return
+			}
+			var other *libConn
+			if failAt >= 0 {
+				if other, err = e.open(connSpec{Client: mode.Client, Mode: mode.Mode, Ext: mode.Ext}); err != nil {
+					fail = err.Error()
+					return
+				}
+				other.Peer.start(e)
+				if failHow == "closed" {
+					other.C.CloseNow()
+				}
 			}
 			lc.Peer.onFrame = func(f ref.Frame) {
 				if f.Opcode == ref.OpClose {
@@ -619,6 +638,18 @@ func TestC19Write(t *testing.T) {
 			sawBad := false
 			d := e.Call(func() {
 				for i, v := range vals {
+					if i == failAt {
+						fctx, fcancel := context.WithCancel(context.Background())
+						if failHow == "cancelled" {
+							fcancel()
+						}
+						ferr := wsjson.Write(fctx, other.C, map[string]any{"document-of-the-other-connection": []any{"must", "never", "be", "seen", "here", i}})
+						fcancel()
+						if ferr == nil && failHow == "closed" {
+							werr = fmt.Errorf("wsjson.Write on a closed connection returned nil")
+							return
+						}
+					}
 					err := wsjson.Write(context.Background(), lc.C, v)
 					if bad[i] {
 						sawBad = true
@@ -680,7 +711,10 @@ func TestC19Write(t *testing.T) {
 		if len(bad) > 0 {
 			wc = "write-with-unencodable-value"
 		}
-		rec.Case(true, fmt.Sprintf("write|%s|%d|%v|%v", mode.Name, n, jsonDepth(vals[0]), bad), wc)
+		if failAt >= 0 {
+			rec.Class("write-after-a-wsjson.Write-that-failed-on-another-connection:"+failHow, 1)
+		}
+		rec.Case(true, fmt.Sprintf("write|%s|%d|%v|%v|%d%s", mode.Name, n, jsonDepth(vals[0]), bad, failAt, failHow), wc)
 		if fail != "" {
 			rt.Fatalf("C19 write mode=%s: %s", mode.Name, fail)
 		}
